@@ -86,24 +86,33 @@ theorem rowOfM_goto (hL : Linked pats nodes paths) (v : Nat) (x : List α) (hv :
   funext a
   rw [(gotoN_spec hL v x hv a).1]; rfl
 
+/-- The nodes the second BFS reaches (it only follows symbols of the alphabet): those whose
+string is over the alphabet.  A pattern with a symbol outside the alphabet leaves trie nodes
+that have a label but are never visited (no row). -/
+def Vis (paths : List (List α)) (v : Nat) : Prop := ∃ x, paths[v]? = some x ∧ Over syms x
+
+theorem over_of_suffix {w y : List α} (hw : Over syms w) (h : y <:+ w) : Over syms y :=
+  fun a ha => hw a (h.subset ha)
+
 /-- Invariant of the second BFS. -/
 structure TInv (pats : List (List α)) (nodes : List (ACNode α)) (paths : List (List α))
     (queue visited : List Nat) (acc : List (Int × List (α × Int)) × List Int) : Prop where
   nodup : (queue ++ visited).Nodup
   inrange : ∀ v ∈ queue ++ visited, v < nodes.length
+  vis : ∀ v ∈ queue ++ visited, Vis syms paths v
   keys : ∀ q : Int, q ∈ akeys acc.1 ↔ ∃ v ∈ visited, q = nat v
   keysNodup : (akeys acc.1).Nodup
   rows : ∀ v ∈ visited, alookup (nat v) acc.1 = some (acRow syms nodes v)
   finals : ∀ q : Int, q ∈ acc.2 ↔ ∃ v ∈ visited, q = nat v ∧ (acGet nodes v).out ≠ []
   root : 0 ∈ queue ++ visited
-  closed : ∀ u ∈ visited, ∀ (a : α) (c : Nat), alookup a (acGet nodes u).succ = some c → c ∈ queue ++ visited
+  closed : ∀ u ∈ visited, ∀ a ∈ syms, ∀ (c : Nat), alookup a (acGet nodes u).succ = some c → c ∈ queue ++ visited
   origin : ∀ v ∈ queue ++ visited, v = 0 ∨ ∃ u ∈ visited, ∃ a : α, alookup a (acGet nodes u).succ = some v
 
 theorem filterMap_children (hL : Linked pats nodes paths) (hsyms : syms.Nodup)
-    (hover : ∀ p ∈ pats, ∀ c ∈ p, c ∈ syms) (cur : Nat) (x : List α) (hcur : paths[cur]? = some x) :
+    (cur : Nat) (x : List α) (hcur : paths[cur]? = some x) :
     (syms.filterMap fun a => alookup a (acGet nodes cur).succ).Nodup ∧
     ∀ c, c ∈ (syms.filterMap fun a => alookup a (acGet nodes cur).succ) ↔
-      ∃ a, alookup a (acGet nodes cur).succ = some c := by
+      ∃ a ∈ syms, alookup a (acGet nodes cur).succ = some c := by
   have h := hL.trie
   constructor
   · -- distinct symbols lead to distinct children
@@ -133,21 +142,9 @@ theorem filterMap_children (hL : Linked pats nodes paths) (hsyms : syms.Nodup)
     exact this syms hsyms
   · intro c
     rw [List.mem_filterMap]
-    constructor
-    · rintro ⟨a, _, ha⟩; exact ⟨a, ha⟩
-    · rintro ⟨a, ha⟩
-      refine ⟨a, ?_, ha⟩
-      -- the edge symbol occurs in a pattern
-      have p1 := (h.child cur x a c hcur).mp ha
-      have hm : x ++ [a] ∈ paths := (h.mem_iff _).mpr ⟨c, p1⟩
-      rcases (hL.mem _).mp hm with h0 | ⟨s, hs, hp⟩
-      · simp at h0
-      · apply hover s hs
-        obtain ⟨t, rfl⟩ := hp
-        simp
 
 theorem tbfs_step (hL : Linked pats nodes paths) (hsyms : syms.Nodup)
-    (hover : ∀ p ∈ pats, ∀ c ∈ p, c ∈ syms) {cur : Nat} {rest visited : List Nat}
+    {cur : Nat} {rest visited : List Nat}
     {acc : List (Int × List (α × Int)) × List Int}
     (inv : TInv syms pats nodes paths (cur :: rest) visited acc) :
     rowOfM (acGoto nodes cur) syms = .ok (acRow syms nodes cur) ∧
@@ -158,10 +155,8 @@ theorem tbfs_step (hL : Linked pats nodes paths) (hsyms : syms.Nodup)
   have h := hL.trie
   have hcurmem : cur ∈ (cur :: rest) ++ visited := by simp
   have hcurlt := inv.inrange cur hcurmem
-  obtain ⟨x, hcur⟩ : ∃ x, paths[cur]? = some x := by
-    have : cur < paths.length := by rw [h.len]; exact hcurlt
-    exact ⟨paths[cur], List.getElem?_eq_getElem this⟩
-  obtain ⟨hknd, hkmem⟩ := filterMap_children syms hL hsyms hover cur x hcur
+  obtain ⟨x, hcur, hxover⟩ := inv.vis cur hcurmem
+  obtain ⟨hknd, hkmem⟩ := filterMap_children syms hL hsyms cur x hcur
   refine ⟨rowOfM_goto syms hL cur x hcur, ?_⟩
   have hnd := inv.nodup
   have hnd0 := hnd
@@ -188,7 +183,7 @@ theorem tbfs_step (hL : Linked pats nodes paths) (hsyms : syms.Nodup)
       rw [this] at hu
       exact hcur_nv hu
   have hmem_new : ∀ v, v ∈ (rest ++ syms.filterMap fun a => alookup a (acGet nodes cur).succ) ++ (cur :: visited) ↔
-      v ∈ (cur :: rest) ++ visited ∨ ∃ a, alookup a (acGet nodes cur).succ = some v := by
+      v ∈ (cur :: rest) ++ visited ∨ ∃ a ∈ syms, alookup a (acGet nodes cur).succ = some v := by
     intro v
     simp only [List.mem_append, List.mem_cons, hkmem]
     constructor
@@ -207,9 +202,12 @@ theorem tbfs_step (hL : Linked pats nodes paths) (hsyms : syms.Nodup)
     obtain ⟨v, hv, e⟩ := (inv.keys _).mp hk
     rw [nat_inj.mp e] at hcur_nv
     exact hcur_nv hv
+  have hkid : ∀ c, (∃ a ∈ syms, alookup a (acGet nodes cur).succ = some c) →
+      ∃ a, alookup a (acGet nodes cur).succ = some c := fun c ⟨a, _, ha⟩ => ⟨a, ha⟩
   refine
     { nodup := ?_
       inrange := ?_
+      vis := ?_
       keys := ?_
       keysNodup := nodup_akeys_ainsert inv.keysNodup
       rows := ?_
@@ -223,7 +221,7 @@ theorem tbfs_step (hL : Linked pats nodes paths) (hsyms : syms.Nodup)
       refine ⟨hq.2, hknd, ?_⟩
       intro a ha b hb e
       subst e
-      exact hfresh a ((hkmem a).mp hb) (List.mem_append_left _ (List.mem_cons_of_mem _ ha))
+      exact hfresh a (hkid a ((hkmem a).mp hb)) (List.mem_append_left _ (List.mem_cons_of_mem _ ha))
     · rw [List.nodup_cons]; exact ⟨hcur_nv, hvis⟩
     · intro a ha b hb e
       subst e
@@ -231,15 +229,21 @@ theorem tbfs_step (hL : Linked pats nodes paths) (hsyms : syms.Nodup)
       · rcases List.mem_cons.mp hb with h3 | h3
         · rw [h3] at h2; exact hq.1 h2
         · exact hdisj a (List.mem_cons_of_mem _ h2) a h3 rfl
-      · apply hfresh a ((hkmem a).mp h2)
+      · apply hfresh a (hkid a ((hkmem a).mp h2))
         rcases List.mem_cons.mp hb with h3 | h3
         · rw [h3]; simp
         · exact List.mem_append_right _ h3
   · intro v hv
-    rcases (hmem_new v).mp hv with h1 | ⟨a, ha⟩
+    rcases (hmem_new v).mp hv with h1 | ⟨a, _, ha⟩
     · exact inv.inrange v h1
     · have := lt_of_getElem? ((h.child cur x a v hcur).mp ha)
       rw [h.len] at this; exact this
+  · intro v hv
+    rcases (hmem_new v).mp hv with h1 | ⟨a, has, ha⟩
+    · exact inv.vis v h1
+    · refine ⟨x ++ [a], (h.child cur x a v hcur).mp ha, ?_⟩
+      rw [over_append]
+      exact ⟨hxover, by simpa using has⟩
   · intro q
     simp only
     rw [mem_akeys_ainsert, inv.keys]
@@ -283,12 +287,12 @@ theorem tbfs_step (hL : Linked pats nodes paths) (hsyms : syms.Nodup)
         rcases List.mem_cons.mp hv with rfl | h1
         · exact Or.inl e1
         · exact Or.inr ⟨v, h1, e1, e2⟩
-  · intro u hu a c hc
+  · intro u hu a has c hc
     rcases List.mem_cons.mp hu with rfl | h1
-    · exact (hmem_new c).mpr (Or.inr ⟨a, hc⟩)
-    · exact (hmem_new c).mpr (Or.inl (inv.closed u h1 a c hc))
+    · exact (hmem_new c).mpr (Or.inr ⟨a, has, hc⟩)
+    · exact (hmem_new c).mpr (Or.inl (inv.closed u h1 a has c hc))
   · intro v hv
-    rcases (hmem_new v).mp hv with h1 | ⟨a, ha⟩
+    rcases (hmem_new v).mp hv with h1 | ⟨a, _, ha⟩
     · rcases inv.origin v h1 with h0 | ⟨u, hu, b, hub⟩
       · exact Or.inl h0
       · exact Or.inr ⟨u, List.mem_cons_of_mem _ hu, b, hub⟩
@@ -299,8 +303,8 @@ theorem count_range {l : List Nat} {n : Nat} (hnd : l.Nodup) (h : ∀ v ∈ l, v
   have := List.Nodup.length_le_of_subset hnd hsub
   simpa using this
 
-theorem tbfs_loop (hL : Linked pats nodes paths) (hsyms : syms.Nodup)
-    (hover : ∀ p ∈ pats, ∀ c ∈ p, c ∈ syms) : ∀ (fuel : Nat) (queue visited : List Nat)
+theorem tbfs_loop (hL : Linked pats nodes paths) (hsyms : syms.Nodup) :
+    ∀ (fuel : Nat) (queue visited : List Nat)
     (acc : List (Int × List (α × Int)) × List Int), TInv syms pats nodes paths queue visited acc →
     nodes.length + 1 ≤ fuel + visited.length →
     ∃ acc' visited', acTransBfs syms nodes fuel queue acc = .ok acc' ∧
@@ -321,74 +325,59 @@ theorem tbfs_loop (hL : Linked pats nodes paths) (hsyms : syms.Nodup)
     cases queue with
     | nil => exact ⟨acc, visited, rfl, inv⟩
     | cons cur rest =>
-      obtain ⟨h1, inv1⟩ := tbfs_step syms hL hsyms hover inv
+      obtain ⟨h1, inv1⟩ := tbfs_step syms hL hsyms inv
       unfold acTransBfs
       simp only
       rw [h1]
       simp only
       exact ih _ _ _ inv1 (by simp only [List.length_cons]; omega)
 
-/-- Result of the second BFS: the table has exactly one row per node, the goto row, and the
-final set marks the nodes with a non-empty output chain. -/
+/-- Result of the second BFS: the table has exactly one row per node whose string is over the
+alphabet (all nodes when the patterns are over the alphabet), the goto row, and the final set
+marks those of them that have a non-empty output chain. -/
 structure Tabulated (pats : List (List α)) (nodes : List (ACNode α)) (paths : List (List α))
     (acc : List (Int × List (α × Int)) × List Int) : Prop where
-  keys : ∀ q : Int, q ∈ akeys acc.1 ↔ ∃ v, v < nodes.length ∧ q = nat v
+  keys : ∀ q : Int, q ∈ akeys acc.1 ↔ ∃ v, Vis syms paths v ∧ q = nat v
   keysNodup : (akeys acc.1).Nodup
-  length : acc.1.length = nodes.length
-  rows : ∀ v, v < nodes.length → alookup (nat v) acc.1 = some (acRow syms nodes v)
-  finals : ∀ q : Int, q ∈ acc.2 ↔ ∃ v, v < nodes.length ∧ q = nat v ∧ (acGet nodes v).out ≠ []
+  rows : ∀ v, Vis syms paths v → alookup (nat v) acc.1 = some (acRow syms nodes v)
+  finals : ∀ q : Int, q ∈ acc.2 ↔ ∃ v, Vis syms paths v ∧ q = nat v ∧ (acGet nodes v).out ≠ []
 
 theorem tabulated_of_final (hL : Linked pats nodes paths) {visited : List Nat}
     {acc : List (Int × List (α × Int)) × List Int}
     (inv : TInv syms pats nodes paths [] visited acc) : Tabulated syms pats nodes paths acc := by
   have h := hL.trie
-  -- every node has been visited
-  have hall : ∀ (n : Nat) (v : Nat) (x : List α), x.length = n → paths[v]? = some x → v ∈ visited := by
+  -- every node whose string is over the alphabet has been visited
+  have hall : ∀ (n : Nat) (v : Nat) (x : List α), x.length = n → paths[v]? = some x → Over syms x →
+      v ∈ visited := by
     intro n
     induction n with
     | zero =>
-      intro v x hx hv
+      intro v x hx hv _
       have : x = [] := List.eq_nil_of_length_eq_zero hx
       subst this
       have : v = 0 := h.inj v 0 [] hv h.root
       subst this
       simpa using inv.root
     | succ n ih =>
-      intro v x hx hv
+      intro v x hx hv hov
       have hne : x ≠ [] := by intro e; rw [e] at hx; simp at hx
       obtain ⟨y, b, rfl⟩ : ∃ y b, x = y ++ [b] :=
         ⟨x.dropLast, x.getLast hne, (List.dropLast_concat_getLast hne).symm⟩
+      rw [over_append] at hov
       obtain ⟨u, hu⟩ := h.pclosed v y b hv
-      have hud : u ∈ visited := ih u y (by simp at hx; omega) hu
-      simpa using inv.closed u hud b v ((h.child u y b v hu).mpr hv)
-  have hvis : ∀ v, v < nodes.length → v ∈ visited := by
-    intro v hv
-    have : v < paths.length := by rw [h.len]; exact hv
-    exact hall _ v paths[v] rfl (List.getElem?_eq_getElem this)
-  have hvis' : ∀ v ∈ visited, v < nodes.length := fun v hv => inv.inrange v (by simpa using hv)
-  have hvnd : visited.Nodup := by simpa using inv.nodup
-  refine ⟨?_, inv.keysNodup, ?_, fun v hv => inv.rows v (hvis v hv), ?_⟩
+      have hud : u ∈ visited := ih u y (by simp at hx; omega) hu hov.1
+      have hb : b ∈ syms := by simpa using hov.2
+      simpa using inv.closed u hud b hb v ((h.child u y b v hu).mpr hv)
+  have hvis : ∀ v, Vis syms paths v → v ∈ visited := by
+    rintro v ⟨x, hx, hov⟩
+    exact hall _ v x rfl hx hov
+  have hvis' : ∀ v ∈ visited, Vis syms paths v := fun v hv => inv.vis v (by simpa using hv)
+  refine ⟨?_, inv.keysNodup, fun v hv => inv.rows v (hvis v hv), ?_⟩
   · intro q
     rw [inv.keys]
     constructor
     · rintro ⟨v, hv, e⟩; exact ⟨v, hvis' v hv, e⟩
     · rintro ⟨v, hv, e⟩; exact ⟨v, hvis v hv, e⟩
-  · -- as many rows as nodes
-    have hk : (akeys acc.1).length = acc.1.length := by simp [akeys]
-    rw [← hk]
-    apply Nat.le_antisymm
-    · have hsub : ∀ q ∈ akeys acc.1, q ∈ (List.range nodes.length).map nat := by
-        intro q hq
-        obtain ⟨v, hv, e⟩ := (inv.keys q).mp hq
-        exact List.mem_map.mpr ⟨v, List.mem_range.mpr (hvis' v hv), e.symm⟩
-      have := List.Nodup.length_le_of_subset inv.keysNodup hsub
-      simpa using this
-    · have hsub : ∀ q ∈ (List.range nodes.length).map nat, q ∈ akeys acc.1 := by
-        intro q hq
-        obtain ⟨v, hv, rfl⟩ := List.mem_map.mp hq
-        exact (inv.keys _).mpr ⟨v, hvis v (List.mem_range.mp hv), rfl⟩
-      have := List.Nodup.length_le_of_subset (nodup_map_nat List.nodup_range) hsub
-      simpa using this
   · intro q
     rw [inv.finals]
     constructor
@@ -396,22 +385,24 @@ theorem tabulated_of_final (hL : Linked pats nodes paths) {visited : List Nat}
     · rintro ⟨v, hv, e1, e2⟩; exact ⟨v, hvis v hv, e1, e2⟩
 
 /-- **Phase 3.** -/
-theorem acTransBfs_spec (hL : Linked pats nodes paths) (hsyms : syms.Nodup)
-    (hover : ∀ p ∈ pats, ∀ c ∈ p, c ∈ syms) :
+theorem acTransBfs_spec (hL : Linked pats nodes paths) (hsyms : syms.Nodup) :
     ∃ acc, acTransBfs syms nodes (nodes.length + 1) [0] ([], []) = .ok acc ∧
       Tabulated syms pats nodes paths acc := by
   have inv0 : TInv syms pats nodes paths [0] [] (([] : List (Int × List (α × Int))), ([] : List Int)) := by
-    refine ⟨by simp, ?_, ?_, by simp [akeys], (fun v hv => nomatch hv), ?_, by simp,
+    refine ⟨by simp, ?_, ?_, ?_, by simp [akeys], (fun v hv => nomatch hv), ?_, by simp,
       (fun u hu => nomatch hu), ?_⟩
     · intro v hv
       simp only [List.append_nil, List.mem_singleton] at hv
       rw [hv]; exact hL.trie.pos
+    · intro v hv
+      simp only [List.append_nil, List.mem_singleton] at hv
+      rw [hv]; exact ⟨[], hL.trie.root, over_nil syms⟩
     · intro q; simp [akeys]
     · intro q; simp
     · intro v hv
       simp only [List.append_nil, List.mem_singleton] at hv
       exact Or.inl hv
-  obtain ⟨acc, visited, h1, inv⟩ := tbfs_loop syms hL hsyms hover (nodes.length + 1) [0] [] _ inv0 (by simp)
+  obtain ⟨acc, visited, h1, inv⟩ := tbfs_loop syms hL hsyms (nodes.length + 1) [0] [] _ inv0 (by simp)
   exact ⟨acc, h1, tabulated_of_final syms hL inv⟩
 
 end trans
